@@ -43,6 +43,11 @@ def dataframe_to_symbols(table: 'pandas.DataFrame') -> List[Symbol]:  # noqa: F8
     for _, row in table.iterrows():
         entry = dict(row)
 
+        # Missing strings (`None`) may come back as NaNs: restore to `None`
+        for key in ('name', 'equation', 'code'):
+            if not isinstance(entry[key], str):
+                entry[key] = None
+
         entry['type'] = Type(entry['type'])  # Convert to `enum`erated variable type
         entry['lags'] = convert_to_int_or_none(entry['lags'])
         entry['leads'] = convert_to_int_or_none(entry['leads'])
